@@ -48,6 +48,31 @@ func foreignLayout(r *Run, real bool) {
 		files = append(files, ref.Protected{Name: name, Data: expandContent(ckRandom, t.Draw64(0, "cseed"), size, S)})
 		n += (size + S - 1) / S
 	}
+	if t.Bool(1, 25, "packet-body-near-a-buffer-size") {
+		// packets whose body length is at or just below a typical buffer
+		// size (1 KiB, 4 KiB, 8 KiB, 64 KiB): a recovery packet (slice size
+		// + 4) or a slice-checksum packet (16 + 20 per slice)
+		target := []int{1024, 4096, 8192, 65536}[t.Pick([]int{2, 4, 2, 1}, "buffer-size")] - 4*t.Draw(9, "below")
+		if t.Bool(1, 2, "via-slice-size") && target <= 8192 {
+			S = target - 4
+			n = 0
+			for i := range files {
+				size := 1 + t.Draw(2*S, "size2")
+				files[i].Data = expandContent(ckRandom, t.Draw64(0, "cseed2"), size, S)
+				n += (size + S - 1) / S
+			}
+		} else {
+			k := (target - 16) / 20
+			if k > 2500 {
+				k = 2500
+			}
+			n -= (len(files[0].Data) + S - 1) / S
+			size := k*S - t.Draw(S, "tail2")
+			files[0].Data = expandContent(ckRandom, t.Draw64(0, "cseed3"), size, S)
+			n += k
+		}
+		r.Probe("packet-body-near-buffer-size")
+	}
 	if nf >= 2 && t.Bool(1, 30, "file-id-twins") {
 		// two files whose file ids agree in their most significant 32 bits
 		// (birthday search over names): the main packet lists ids in
